@@ -70,10 +70,13 @@ ILLFORMED = ['[38;5', {'S': '1m'}, {'S': 'abc'}, '[;', '[1;;2', {'S': ' 1'}, '[3
              {'S': '1;'}, '[31:1', {'S': '?1'}, '[38;5;300', {'S': '+1'}, {'S': 'K'}, '[1m\x1b[31']
 
 
-def gen_setting(rng, profile='wf'):
+def gen_setting(rng, profile='wf', focus=None):
     """one setting spec.  profile: 'wf' (well-formed only), 'mixed' (some reset /
-    unknown / verbatim), 'hostile' (also ill-formed)"""
+    unknown / verbatim), 'hostile' (also ill-formed).  focus: families to draw from
+    (conflicts and equal-valued duplicates become frequent)"""
     r = rng.random()
+    if focus and r > 0.12:
+        return rng.choice(FAMILIES[rng.choice(focus)])
     if profile == 'hostile' and r < 0.15:
         return rng.choice(ILLFORMED)
     if profile in ('mixed', 'hostile'):
@@ -86,10 +89,10 @@ def gen_setting(rng, profile='wf'):
     return rng.choice(FAMILIES[fam])
 
 
-def gen_settings(rng, profile='wf', maxn=3):
+def gen_settings(rng, profile='wf', maxn=3, focus=None):
     """a list of 1..maxn setting specs, sometimes nested / as ';' string"""
     n = 1 if rng.random() < 0.6 else rng.randint(1, maxn)
-    out = [gen_setting(rng, profile) for _ in range(n)]
+    out = [gen_setting(rng, profile, focus) for _ in range(n)]
     r = rng.random()
     if r < 0.08 and all(isinstance(x, str) and not x.startswith('[') for x in out):
         return [';'.join(out)]
@@ -340,9 +343,19 @@ DEFAULT_WEIGHTS = {
 
 
 class HistoryGen:
-    def __init__(self, L, rng, ex, maxlen=12, profile='wf', weights=None, esc=False, pool_cap=20):
+    def __init__(self, L, rng, ex, maxlen=12, profile='wf', weights=None, esc=False, pool_cap=20, focus='auto'):
         self.L = L
         self.rng = rng
+        if focus == 'auto':
+            # half of the histories draw their settings from one or two effect groups only
+            r = rng.random()
+            if r < 0.3:
+                focus = [rng.choice(list(FAMILIES))]
+            elif r < 0.5:
+                focus = rng.sample(list(FAMILIES), 2)
+            else:
+                focus = None
+        self.focus = focus
         self.ex = ex
         self.maxlen = maxlen
         self.profile = profile
@@ -359,7 +372,7 @@ class HistoryGen:
         return gen_text(self.rng, maxlen or self.maxlen, allow_empty, self.esc)
 
     def settings(self, maxn=3, profile=None):
-        return gen_settings(self.rng, profile or self.profile, maxn)
+        return gen_settings(self.rng, profile or self.profile, maxn, self.focus)
 
     LEN_CAP = 160
 
